@@ -358,6 +358,12 @@ func (ex *Exec) applyContract(st *State, fr *Frame, ct *Contract, key string, ar
 			continue
 		}
 		props := r.Props
+		if len(props) == 1 && props[0] == "C14" && ex.topC != nil && ex.topC.NoSafety {
+			// a pure run-time-safety precondition in a function whose safety is
+			// declared out of scope: assumed (see the nosafety assumption)
+			st.assume(t)
+			continue
+		}
 		ex.check(st, fr, "pre", fmt.Sprintf("%s.%d.%s", short, ord, r.Label), t, props, "precondition of "+short+": "+r.Text, ex.pos(pos))
 	}
 	// call-site obligations of the function under verification
